@@ -189,6 +189,7 @@ def run_case(case, ch):
             fs = memfs.MemFS()
             memfs.bind(w, fs, chunk_size=64)
             fs.short_chooser = ch
+            fs.fail_at = plan.get('fail_io')
             q = Queue(ds.DiskStorage('/q/env', '/q/meta', '/q/tmp'), relay=None)
             add_policies(q, chain)
             obs['fs'] = fs
@@ -310,6 +311,7 @@ def run_case(case, ch):
         obs['errors'] = w.errors()
     obs['log'] = log
     if queue_kind == 'queue-disk':
+        obs['io_count'] = obs['fs'].io_count
         obs.pop('fs', None)
         if obs.get('files_at_final') is not None:
             obs['stored_at_final'] = read_back(obs.pop('files_at_final'))
@@ -442,8 +444,11 @@ def run_config(cfg, tier, seed):
         if case['plan'] or case['chain'] != 'none':
             res.interesting(repr(sorted(case.items())))
 
+        ios = [0]
+
         def run(ch, case=case):
             obs = run_case(case, ch)
+            ios[0] = max(ios[0], obs.get('io_count', 0))
             for sig, msg in judge(case, obs):
                 res.violation(sig, msg, {'case': case, 'choices': ch.choices})
             if obs['final'] and obs['final'][0] == '2':
@@ -453,6 +458,15 @@ def run_config(cfg, tier, seed):
             return (obs['final'], obs['end'], repr(obs['at_final']))
         st = explore(run, d=d, dd=None, merge=False, max_exec=500)
         res.add_stats(st)
+        if case['queue'] == 'queue-disk' and not case['plan']:
+            # every single failing request of the write path (temp file creation, each aio write, each rename answers ENOSPC)
+            for k in range(ios[0]):
+                fcase = dict(case, plan={'fail_io': k})
+                res.count('plans')
+                res.count('disk_fault_plans')
+                res.interesting(repr(sorted(fcase.items())))
+                st2 = explore(lambda ch, fcase=fcase: run(ch, fcase), d=d, dd=None, merge=False, max_exec=500)
+                res.add_stats(st2)
         if i % 300 == cfg['k']:
             res.sample({'case': case, 'executions': st.executions})
     return res.as_dict()
